@@ -4,7 +4,7 @@ BOUNDS = ('loop-free: every query covers ALL values of its operands (full 16/32/
           'float/double incl. NaN payloads, infinities, -0); one operator application per query')
 STUBS = []
 OUTSIDE = ['big-endian hosts (Platform.hh selects PHOSG_LITTLE_ENDIAN on x86-64; the other branch is not compiled)',
-           'operand type R other than the exposed type T in the templated compound operators',
+           'operand types R other than the exposed type T and int in the templated compound operators (checked: R = T for every operator, R = int for += -= &= |= ^= <<= >>= on the integer wrappers)',
            'native-undefined operand combinations: division/modulo by zero, shift counts >= width, signed 32/64-bit overflow, MIN / -1',
            'sign_extend with a 64-bit source type (no wider result type exists; the expression 1 << 63 on int is undefined)',
            'NaN payload propagation is compared between the wrapper and the C reference under the same FP model (CBMC float model / host FPU), not against IEEE-754 text']
@@ -48,6 +48,10 @@ def queries(tier):
             bnd = 'all %d-bit values v and operands d' % bits
             qs.append(Q(w + '_ops', 'h_wrap.c', defs, unwind=10, bounds=bnd,
                         desc=w + ': ctor/convert, =, store/load, store_raw/load_raw, += -= ' + ('' if flt else '&= |= ^= <<= >>= ') + '++x x++ --x x--, copy-assign (operator symbolic): object bytes and returned value vs native'))
+            if not flt:
+                d3 = dict(defs); d3['INTOPS'] = 1
+                qs.append(Q(w + '_intops', 'h_wrap.c', d3, unwind=10, bounds='all %d-bit values v, all int operands' % bits,
+                            desc=w + ': += -= &= |= ^= <<= >>= with an int right-hand side (R != T, operator symbolic): object bytes and returned value vs native'))
             for k in (('add', 'sub', 'mul', 'div', 'preinc', 'postinc', 'predec', 'postdec') if flt else ('mul', 'div', 'mod')):
                 d2 = dict(defs); d2['OP'] = OPN[k]
                 if tier == 'quick' and bits == 64 and (flt or (k == 'mul' and sg)):
